@@ -131,6 +131,72 @@ def dump_findings(agg, wd):
     write_json(os.path.join(wd, "findings.json"), out)
 
 
+MC_FOCUSES = {"C06", "C07", "C08", "C09", "C13"}
+MC_CFG = ('SPECIFICATION MCSpec\nCONSTANTS Focus = "%s" Tier = "%s"\nINVARIANT Progress\nINVARIANT ControlIsFinal\n'
+          'INVARIANT ParamsScoped\nINVARIANT Predict\nCHECK_DEADLOCK FALSE\n')
+
+
+def norm(x):
+    """TLC prints an empty record as []; the harness prints {}."""
+    if isinstance(x, dict):
+        d = {k: norm(v) for k, v in x.items()}
+        if d.get("t") == "obj" and d.get("m") == []:
+            d["m"] = {}
+        return d
+    if isinstance(x, list):
+        return [norm(v) for v in x]
+    return x
+
+
+def model_phase(focus, tier, wd, cases, traces):
+    """Model-check the executable machine (MCCore) on the focus grammar and compare every finished behaviour's
+    prediction with what the real interpreter did on the same program and event (spec -> impl)."""
+    out = tlc("MCCore.tla", MC_CFG % (focus, tier), wd, workers=min(8, NCPU), name=f"MC_{focus}", timeout=3000, allow_error=True)
+    if "No error has been found" not in out:
+        import re as _re
+        m = _re.search(r"Error:.*(?:\n.*){0,6}", out)
+        raise ToolError(f"MCCore.tla ({focus}): a model-level invariant failed or TLC stopped: " + (m.group(0)[:1200] if m else out[-800:]))
+    st, tr = tlc_stats(out)
+    preds = printed(out, "PREDICT")
+    by_ast = {json.dumps(norm(c["ast"]), sort_keys=True): c["id"] for c in cases}
+    real = {}
+    for t in traces:
+        pid, n = None, 0
+        with open(t) as f:
+            for l in f:
+                if l.startswith('{"e":"prog"'):
+                    pid, n = json.loads(l)["id"], 0
+                elif l.startswith('{"e":"reject"'):
+                    pid = None
+                elif l.startswith('{"e":"end"') and pid is not None:
+                    n += 1
+                    real[(pid, n)] = json.loads(l)
+    res = {"behaviours": len(preds), "validated": 0, "unmodelled": 0, "not_accepted_by_compiler": 0, "mismatches": 0, "mismatch_samples": []}
+    for p in preds:
+        cid = by_ast.get(json.dumps(norm(p["ast"]), sort_keys=True))
+        r = real.get((cid, p["evt"]))
+        if r is None:
+            res["not_accepted_by_compiler"] += 1
+            continue
+        if p["unmodelled"]:
+            res["unmodelled"] += 1
+            continue
+        want, got = norm(p["fin"]), norm(r["res"])
+        same = want["r"] == got["r"] and (want["r"] != "ok" or want["v"] == got["v"]) and \
+            (want["r"] != "abort" or (want["hm"] == got["hm"] and (not want["hm"] or want["m"] == got["m"])))
+        same = same and norm(p["ev"]) == norm(r["ev"]) and norm(p["meta"]) == norm(r["meta"])
+        pv = norm(p["vars"]) if p["vars"] != [] else {}
+        same = same and pv == norm(r["vars"])
+        if same:
+            res["validated"] += 1
+        else:
+            res["mismatches"] += 1
+            if len(res["mismatch_samples"]) < 5:
+                res["mismatch_samples"].append({"case": cid, "evt": p["evt"], "predicted": {"fin": want, "vars": pv, "ev": norm(p["ev"])},
+                                                "real": {"res": got, "vars": norm(r["vars"]), "ev": norm(r["ev"])}})
+    return res, st, tr
+
+
 def check(prop, tier, seed, focus=None, props_of_interest=None):
     t0 = time.time()
     focus = focus or FOCUS.get(prop, prop)
@@ -164,6 +230,13 @@ def check(prop, tier, seed, focus=None, props_of_interest=None):
     log(f"[{prop}] replayed ({time.time()-t0:.0f}s)")
     agg = aggregate(validate(traces, wd))
     log(f"[{prop}] validated ({time.time()-t0:.0f}s)")
+    model = None
+    if focus in MC_FOCUSES and not sampled:
+        model, mst, mtr = model_phase(focus, tier, wd, cases, traces)
+        gst += mst
+        gtr += mtr
+        log(f"[{prop}] model-checked, predictions compared: {model['validated']} validated, {model['mismatches']} mismatches, "
+            f"{model['unmodelled']} unmodelled ({time.time()-t0:.0f}s)")
     dump_findings(agg, wd)
     mine = [v for v in agg["viols"] if v["prop"] == prop]
     others = {}
@@ -205,6 +278,11 @@ def check(prop, tier, seed, focus=None, props_of_interest=None):
         "witnesses_for_other_properties": others,
         "exhaustive": not sampled,
     }
+    if model:
+        coverage["model_checked_behaviours"] = model
+        coverage["rule"] += ("; the same programs x events are also EXECUTED by the model (MCCore.tla, invariants Progress / ControlIsFinal / "
+                             "ParamsScoped on every state) and each finished behaviour's predicted result, event, metadata and variables are "
+                             "compared with the real run (model_checked_behaviours)")
     assumptions = ["the harness renders the TLC-generated AST to source and maps compiler records to nodes by span",
                    "hook H1 brackets every Expr::resolve; the logging target sees every target operation",
                    "bounded grammar: see GenCore.tla for the atom sets and nesting of this focus and tier"]
